@@ -124,6 +124,9 @@ class Equation(object):
             if term.IsBlob:
                 raise LogicError('Cannot add a blob to non-empty equation')
         for other in self.TermList:
+            if other.IsBlob:
+                # A blob is opaque (it has no coefficient that could absorb the new term).
+                continue
             if term.Term == other.Term:
                 # Already exists; just add the constants together.
                 other.Constant += term.Constant
